@@ -44,11 +44,43 @@ class _Continue(Exception):
 
 
 class Frame:
-    def __init__(self, fi, module, locs, selfcls=None):
+    def __init__(self, fi, module, locs, selfcls=None, closure=None):
         self.fi = fi
         self.module = module
         self.locals = locs
         self.selfcls = selfcls
+        self.closure = closure      # defining frame of a nested function / lambda (free variables, late binding)
+
+
+class NestedFI:
+    """function info of a nested `def` or a lambda (no contract, no loop invariants of its own)"""
+    kind = "function"
+    cls = None
+
+    def __init__(self, node, outer_fr, body):
+        self.node = node
+        self.body = body
+        self.module = outer_fr.module
+        self.name = getattr(node, "name", "<lambda>")
+        outer = outer_fr.fi.qualname if outer_fr.fi is not None else outer_fr.module.name
+        self.qualname = f"{outer}.<locals>.{self.name}@{node.lineno}"
+        self.lineno = node.lineno
+        self.sha = None
+        self.loops = [n for n in ast.walk(node) if isinstance(n, (ast.For, ast.While))]
+
+    def loop_ordinal(self, node):
+        for i, n in enumerate(self.loops):
+            if n is node:
+                return i
+        raise KeyError("loop not found")
+
+
+class Closure:
+    """value of a nested function definition / lambda expression: code + defining frame"""
+
+    def __init__(self, fi, frame):
+        self.fi = fi
+        self.frame = frame
 
 
 class Obligation:
@@ -654,6 +686,10 @@ class Interp:
             if mem is None:
                 if name == "__class__":
                     return ClassRef(obj.cls)
+                if getattr(obj, "model_object", False):
+                    # a harness object that stands for the postcondition of a constructor the engine could not run: a
+                    # field the real constructor may have added is unknown here, not absent
+                    raise EngineLimit(f"field {name} of a constructor-model object ({obj.cls.name})")
                 raise PyExc("AttributeError", getattr(node, "lineno", None))
             return self._bind_member(mem, name, obj, ClassRef(obj.cls))
         if isinstance(obj, ClassRef):
@@ -750,6 +786,11 @@ class Interp:
     def ex_Name(self, n, fr):
         if n.id in fr.locals:
             return fr.locals[n.id]
+        cf = getattr(fr, "closure", None)
+        while cf is not None:
+            if n.id in cf.locals:
+                return cf.locals[n.id]
+            cf = getattr(cf, "closure", None)
         try:
             v = self.module_global(fr.module, n.id)
             if getattr(v, "mutated_global", False):
@@ -912,7 +953,7 @@ class Interp:
         made_at = len(self.ctx.writes)
 
         def raw_elem(i):
-            f2 = Frame(fr.fi, fr.module, dict(base_locals), fr.selfcls)
+            f2 = Frame(fr.fi, fr.module, dict(base_locals), fr.selfcls, closure=getattr(fr, "closure", None))
             self.assign(g.target, seq.elem(i), f2)
             w0 = len(self.ctx.writes)
             v = self.eval(n.elt, f2)
@@ -974,7 +1015,7 @@ class Interp:
         if not isinstance(seq, list):
             raise EngineLimit("comprehension over symbolic-length sequence")
         for el in seq:
-            f2 = Frame(fr.fi, fr.module, dict(fr.locals), fr.selfcls)
+            f2 = Frame(fr.fi, fr.module, dict(fr.locals), fr.selfcls, closure=getattr(fr, "closure", None))
             self.assign(g.target, el, f2)
             ok = True
             for cond in g.ifs:
@@ -985,7 +1026,33 @@ class Interp:
                 self._comp(gens, i + 1, f2, emit)
 
     def ex_Lambda(self, n, fr):
-        raise EngineLimit("lambda")
+        if n.args.defaults or n.args.kw_defaults:
+            raise EngineLimit("lambda with default arguments")
+        return Closure(NestedFI(n, fr, [ast.copy_location(ast.Return(value=n.body), n)]), fr)
+
+    def st_FunctionDef(self, st, fr):
+        if st.decorator_list or st.args.defaults or any(d is not None for d in st.args.kw_defaults):
+            raise EngineLimit(f"nested function {st.name} with decorators / default arguments")
+        for n in ast.walk(st):
+            if isinstance(n, (ast.Nonlocal, ast.Global, ast.Yield, ast.YieldFrom)):
+                raise EngineLimit(f"nested function {st.name} uses nonlocal / global / yield")
+        fr.locals[st.name] = Closure(NestedFI(st, fr, st.body), fr)
+
+    def call_closure(self, c, args, kwargs):
+        fi = c.fi
+        self.call_log.append(("inline", fi.qualname))
+        if self.depth > 60:
+            raise EngineLimit("call depth")
+        locs = self.bind_params(fi, args, kwargs)
+        fr = Frame(fi, fi.module, locs, c.frame.selfcls, closure=c.frame)
+        self.depth += 1
+        try:
+            self.exec_block(fi.body, fr)
+            return None
+        except _Return as r:
+            return r.value
+        finally:
+            self.depth -= 1
 
     def ex_Starred(self, n, fr):
         raise EngineLimit("starred outside call/tuple")
@@ -1023,6 +1090,8 @@ class Interp:
             return self.call_function(f.fi, [f.selfval] + list(args), kwargs)
         if isinstance(f, FuncRef):
             return self.call_function(f.fi, list(args), kwargs)
+        if isinstance(f, Closure):
+            return self.call_closure(f, list(args), kwargs)
         if isinstance(f, ClassRef):
             return self.instantiate(f.cls, args, kwargs)
         if isinstance(f, ExtFunc):
